@@ -900,7 +900,7 @@ theorem Running.failParam {n : Nat} {v : View} {k : EClass} {cause : Cause} {exc
     subst hc he
     exact h.failSync (Or.inr sy) ev a sl st h1 h2 h3
 
-theorem Done.stop_eq {v : View} (s : StopReason) (h : Done cfg tl β .failure v) (hs : v.stop = some s) :
+theorem Done.stop_eq {v : View} (s : StopReason) (_h : Done cfg tl β .failure v) (hs : v.stop = some s) :
     v.esc = true ∨ v.stop = some s := Or.inr hs
 
 end trans2
@@ -1004,4 +1004,68 @@ theorem failureOutcome_spec (n : Nat) (v : View) (k : EClass) (cause : Cause) (e
     | skip)
   
 end specs2
+section fin
+variable {cfg : Cfg} {tl : Bool} {β : Brk}
+
+theorem Running.success {n : Nat} {v : View} (h : Running cfg tl β n v) (a : Nat) :
+    Done cfg tl β .success (push cfg tl (.success, a, 0, tagsOf cfg none none none none) v) := by
+  rcases h with h | ⟨b, hs, G, hG, ag⟩
+  · exact Or.inl h
+  · exact Or.inr ⟨b.push _ (by simp [describes, tagsOf]), _, n, G, by simp, hG, ag.push _,
+      by simp [TermRel, tagsOf, hs]⟩
+
+/-- from a `Done` state to `Final`, given that the terminal event fits the result -/
+theorem Done.final {k : TKind} {v : View} {r : Res} (h : Done cfg tl β k v)
+    (hr : ∀ t : EvRec, Base β v → TermRel k t v → terminalOk true t r = true) : Final cfg tl β r v := by
+  rcases h with h | ⟨b, t, n, G, hne, hG, ag, ht⟩
+  · exact Or.inl h
+  · exact Or.inr ⟨b.tags, b.brk, t, n, G, hne, hG, ag, hr t b ht⟩
+
+theorem Done.final_ret {v : View} (h : Done cfg tl β .success v) (x : Nat) : Final cfg tl β (.ret x) v :=
+  h.final (fun t _ ht => by simp_all [TermRel, terminalOk])
+
+theorem Done.final_ok {v : View} {o : Outcome} (h : Done cfg tl β .success v) (ho : OutcomeOf v true o)
+    (tl' : List TimelineEv) : Final cfg tl β (.outcome o tl') v :=
+  h.final (fun t _ ht => by simp_all [TermRel, terminalOk, ho.ok])
+
+theorem Done.final_fail {v : View} {o : Outcome} (h : Done cfg tl β .failure v) (ho : OutcomeOf v false o)
+    (tl' : List TimelineEv) : Final cfg tl β (.outcome o tl') v :=
+  h.final (fun t b ht => by
+    obtain ⟨h1, h2, h3, h4, h5, h6⟩ := ht
+    have hx := b.exc
+    simp only [terminalOk, ho.ok, ho.stop, ho.lastClass, ho.cause, ho.lastExc]
+    cases hl : v.lastExc with
+    | none => simp_all
+    | some e => have := (hx e hl).1; simp_all)
+
+theorem Done.final_aborted {v : View} {o : Outcome} (h : Done cfg tl β .aborted v) (ho : OutcomeOf v false o)
+    (tl' : List TimelineEv) : Final cfg tl β (.outcome o tl') v :=
+  h.final (fun t _ ht => by
+    obtain ⟨h1, h2, h3⟩ := ht
+    simp_all [terminalOk, ho.ok, ho.stop])
+
+theorem Done.final_abort {v : View} {e : Exn} (h : Done cfg tl β .aborted v) (he : e.isAbort = true) :
+    Final cfg tl β (.raised e) v :=
+  h.final (fun t _ ht => by
+    obtain ⟨h1, h2, h3⟩ := ht
+    cases e <;> simp_all [terminalOk, Exn.isAbort])
+
+theorem Done.final_raise {v : View} {e : Exn} {k : EClass} (h : Done cfg tl β .failure v)
+    (hf : Failed k .exception (some e) v) : Final cfg tl β (.raised e) v := by
+  rcases hf with hf | ⟨_, _, _, hl⟩
+  · exact Or.inl hf
+  · exact h.final (fun t b ht => by
+      obtain ⟨h1, h2, h3, h4, h5, h6⟩ := ht
+      obtain ⟨_, ha, hx⟩ := b.exc e hl
+      have hs : t.2.2.2.stop.isSome = true := by rw [h1]; exact h3
+      cases e <;> simp_all [terminalOk, Exn.isAbort, Exn.isExhausted])
+
+theorem Done.final_exhausted {v : View} {f : ExhaustedFields} (h : Done cfg tl β .failure v)
+    (hs : v.stop = some f.stop) (hc : f.lastClass = v.lastClass) (he : f.lastExc.isSome = v.lastExc.isSome) :
+    Final cfg tl β (.raised (.libExhausted f)) v :=
+  h.final (fun t _ ht => by
+    obtain ⟨h1, h2, h3, h4, h5, h6⟩ := ht
+    simp_all [terminalOk])
+
+end fin
 end Redress.Props.C14
